@@ -1018,6 +1018,7 @@ func (Prop) Run(c *engine.Ctx) {
 	}
 	runLegacy(c)
 	runWiden(c)
+	runRekey(c)
 	runShapes(c)
 	runCurves(c)
 }
